@@ -50,10 +50,11 @@ Record xstate := mkX {
   armed : option nat;
   blocked : option nat;       (* connection whose loop is inside the blocking handler *)
   auto : bool;                (* real transports: dead connections are noticed before the next operation *)
-  npeers : nat }.
+  npeers : nat;
+  hreent : bool }.             (* error handler 0 is re-entrant: it calls Send(lost peer) on its own router *)
 
 Definition with_st (x : xstate) (s : state) : xstate :=
-  mkX s (held x) (armed x) (blocked x) (auto x) (npeers x).
+  mkX s (held x) (armed x) (blocked x) (auto x) (npeers x) (hreent x).
 
 Definition loop_of (s : state) (c : nat) : option lstate :=
   match conns s c with Some x => Some (loop x) | None => None end.
@@ -67,9 +68,16 @@ Fixpoint drive (fuel : nat) (x : xstate) (c : nat) : xstate :=
       | Some (LTrig k) =>
           if k <? nh (st x) then
             match step (st x) (ATrigger c) with
-            | Some s' =>
+            | Some s0 =>
+                (* a re-entrant handler 0 sends one message to the peer it was told, from inside the call *)
+                let s' := if hreent x && (k =? 0) then
+                            match conns s0 c with
+                            | Some y => fst (send_call s0 (cpeer y) [length (calls s0)] false)
+                            | None => s0
+                            end
+                          else s0 in
                 if match armed x with Some h => h =? k | None => false end
-                then mkX s' (held x) None (Some c) (auto x) (npeers x)
+                then mkX s' (held x) None (Some c) (auto x) (npeers x) (hreent x)
                 else drive f (with_st x s') c
             | None => x
             end
@@ -147,7 +155,7 @@ Definition exec (x : xstate) (o : op) : xstate * option bool * bool :=
               let s2 := run_until_reg (send_fuel msgs) s1 t buf in
               match result s2 t with
               | Some r => (settle (with_st x s2), res_bool (Some r), false)
-              | None => (mkX s2 (Some t) (armed x) (blocked x) (auto x) (npeers x), None, false)
+              | None => (mkX s2 (Some t) (armed x) (blocked x) (auto x) (npeers x) (hreent x), None, false)
               end
           | None => (x, None, true)
           end
@@ -157,7 +165,7 @@ Definition exec (x : xstate) (o : op) : xstate * option bool * bool :=
       | Some t =>
           let msgs := match threads s t with Some th => tmsgs th | None => [] end in
           let s2 := run_thread (send_fuel msgs) s t buf in
-          (settle (mkX s2 None (armed x) (blocked x) (auto x) (npeers x)), res_bool (result s2 t), false)
+          (settle (mkX s2 None (armed x) (blocked x) (auto x) (npeers x) (hreent x)), res_bool (result s2 t), false)
       | None => (x, None, true)
       end
   | OPeerSend p m =>
@@ -243,13 +251,13 @@ Definition exec (x : xstate) (o : op) : xstate * option bool * bool :=
       end
   | OHold h =>
       match armed x, blocked x with
-      | None, None => (mkX s (held x) (Some h) None (auto x) (npeers x), None, false)
+      | None, None => (mkX s (held x) (Some h) None (auto x) (npeers x) (hreent x), None, false)
       | _, _ => (x, None, true)
       end
   | ORelease =>
       match blocked x with
-      | Some c => (settle (drive (nh s + 2) (mkX s (held x) (armed x) None (auto x) (npeers x)) c), None, false)
-      | None => (mkX s (held x) None None (auto x) (npeers x), None, false)
+      | Some c => (settle (drive (nh s + 2) (mkX s (held x) (armed x) None (auto x) (npeers x) (hreent x)) c), None, false)
+      | None => (mkX s (held x) None None (auto x) (npeers x) (hreent x), None, false)
       end
   | OCloseRouter =>
       match step s AClose with
@@ -284,8 +292,8 @@ Fixpoint model_run (x : xstate) (ops : list op) : list snap :=
   | o :: r => let '(x', res, sk) := exec x o in snapshot x' res sk :: model_run x' r
   end.
 
-Definition x0 (is_tcp is_auto : bool) (np nhand : nat) : xstate :=
-  mkX (init code_fixed_F11 is_tcp nhand) None None None is_auto np.
+Definition x0 (is_tcp is_auto : bool) (np nhand : nat) (hs : bool) : xstate :=
+  mkX (init code_fixed_F11 is_tcp nhand) None None None is_auto np hs.
 
 (* coarse projection for the real transports *)
 Record csnap := mkCSnap {
@@ -378,8 +386,8 @@ Inductive entry :=
 | ESendToChildren | ESendParallel | EMulticast | EBroadcast.
 
 Inductive case :=
-| CScript (is_tcp : bool) (np nhand : nat) (ops : list op) (obs : list snap)
-| CReal (is_tcp : bool) (np nhand : nat) (ops : list op) (obs : list csnap)
+| CScript (is_tcp hs : bool) (np nhand : nat) (ops : list op) (obs : list snap)
+| CReal (is_tcp hs : bool) (np nhand : nat) (ops : list op) (obs : list csnap)
 | CClassify (e : rawerr) (lost : bool) (nhand : nat) (obs_cls : ecls) (obs_left : bool) (obs_calls : nat)
 | CEntry (ep : entry) (self : nat) (dests : list nat) (up : list nat)
          (obs_errs : nat) (obs_deliv : list nat)
@@ -418,10 +426,10 @@ Definition same_set (a b : list nat) : bool :=
 
 Definition agree (c : case) : bool :=
   match c with
-  | CScript is_tcp np nhand ops obs =>
-      list_eqb snap_eqb (model_run (x0 is_tcp false np nhand) ops) obs
-  | CReal is_tcp np nhand ops obs =>
-      list_eqb csnap_eqb (cmodel_run (x0 is_tcp true np nhand) ops obs) obs
+  | CScript is_tcp hs np nhand ops obs =>
+      list_eqb snap_eqb (model_run (x0 is_tcp false np nhand hs) ops) obs
+  | CReal is_tcp hs np nhand ops obs =>
+      list_eqb csnap_eqb (cmodel_run (x0 is_tcp true np nhand hs) ops obs) obs
   | CClassify e lost nhand obs_cls obs_left obs_calls =>
       ecls_eqb (handle_error e) obs_cls &&
       match classify obs_cls with
@@ -611,8 +619,8 @@ Definition attempted (ep : entry) (self : nat) (dests up : list nat) : list nat 
 
 Definition check (c : case) : list nat :=
   match c with
-  | CScript is_tcp np nhand ops obs => check_script is_tcp nhand truth0 (snap0 np) None ops obs
-  | CReal is_tcp np nhand ops obs => check_real is_tcp nhand truth0 (csnap0 np nhand) None ops obs
+  | CScript is_tcp _ np nhand ops obs => check_script is_tcp nhand truth0 (snap0 np) None ops obs
+  | CReal is_tcp _ np nhand ops obs => check_real is_tcp nhand truth0 (csnap0 np nhand) None ops obs
   | CClassify e lost nhand obs_cls obs_left obs_calls =>
       clause 6 (negb lost || obs_left) ++ clause 3 (negb lost || (obs_calls =? nhand))
   | CEntry ep self dests up obs_errs obs_deliv =>
